@@ -302,8 +302,20 @@ def eval_case(case):
     builder, reaction = make_builder(reaction0, align, dyn)
     final_ids = sorted(reaction.final_state)
     combos = switch_product(final_ids, case.get("tier", "thorough"), align != "none")
-    for ci, (stable, scalar, couplings, extra) in enumerate(combos):
-        builder, reaction = make_builder(reaction0, align, dyn)
+    # pass 1: a fresh builder per switch combination; pass 2 ("live"): ONE builder that
+    # is re-configured and re-formulated through the combinations forwards and backwards
+    # (a model must not depend on what the builder formulated before)
+    plain = [c for c in combos if c[3] == "none"]
+    live_order = [*plain, *reversed(plain[:-1]), *[c for c in combos if c[3] != "none"]]
+    schedule = [(ci, c, False) for ci, c in enumerate(combos)] + [(100 + k, c, True) for k, c in enumerate(live_order)]
+    live_builder = None
+    for ci, (stable, scalar, couplings, extra), live in schedule:
+        if live:
+            if live_builder is None:
+                live_builder, reaction = make_builder(reaction0, align, dyn)
+            builder = live_builder
+        else:
+            builder, reaction = make_builder(reaction0, align, dyn)
         builder.config.stable_final_state_ids = stable
         builder.config.scalar_initial_state_mass = scalar
         builder.config.use_helicity_couplings = couplings
@@ -324,7 +336,7 @@ def eval_case(case):
                     else:
                         continue
                     break
-        cfg = f"stable={stable} scalar={scalar} couplings={couplings} adapter={extra}"
+        cfg = f"stable={stable} scalar={scalar} couplings={couplings} adapter={extra}" + (" (live builder)" if live else "")
         model = builder.formulate()
         n_eval += 1
         expr = model.expression
